@@ -600,4 +600,10 @@ v("P-start-task-releases-on-failure", [(P, ACQ, ACQ + "        try:\n           
 v("M3-unix-server-start-function-not-stored", [(SV, "        self._start_unix_server = start_unix_server\n", "")], {"C19": "R19.3"})
 v("M4-members-loop-breaks", [(PA, "            else:\n                continue\n            subparser.set_defaults", "            else:\n                break\n            subparser.set_defaults")], {"C16": "R16.2"})
 
+FLUSH_BODY_START = "        with suppress(CancelledError):\n            await gather(\n                *self._meta_tasks_cancelled,\n                *self._pop_ended_meta_tasks(),"
+v("P-flush-body-in-helper", [(P, FLUSH_BODY_START, "        await self._flush(return_exceptions)\n\n    async def _flush(self, return_exceptions: bool) -> None:\n" + FLUSH_BODY_START)],
+  {"C13": "ok", "C02": "ok", "C03": "ok", "C12": "ok", "C05": "ok"})
+v("42e-flush-skips-when-busy", [(P, FLUSH_BODY_START, "        if self._locked:\n            return\n        await self._flush(return_exceptions)\n\n    async def _flush(self, return_exceptions: bool) -> None:\n" + FLUSH_BODY_START)],
+  {"C13": "R13.5"})
+
 VARIANTS = V
